@@ -95,6 +95,21 @@ def rule_r1(ctx) -> List[R.Inst]:
                             f"rows are unpacked positionally as {names} but the frame's columns are {cols}"
                             f"{'' if idx_false else ' preceded by the index'}: values land in the wrong variables",
                             construct=f"{names} vs {cols}"))
+    # every column group reaches the per-row loop: no early exit from the per-column body before it
+    pre = []
+    for st in outer.body:
+        if st is inner or any(x is inner for x in ast.walk(st)):
+            break
+        pre.append(st)
+    early = [(c, ex) for c, sts, ex in _branch_paths(pre) if ex != "fall"]
+    if early:
+        c, ex = early[0]
+        ctxt = " and ".join(("" if pol else "not ") + f"({unparse(t)})" for t, pol in c) or "always"
+        insts.append(R.viol(rid, "column-groups", file, outer.lineno,
+                            f"when [{ctxt}] a whole column is skipped ({ex}) before its notes are processed: the result lists are "
+                            f"rebuilt from scratch, so those notes disappear", construct=f"per-column body: {ctxt} -> {ex}"))
+    else:
+        insts.append(R.ok(rid, "column-groups", file, outer.lineno, idiom="every column group reaches the per-row loop"))
     # every path appends exactly one note carrying the row's offset and column
     paths = _branch_paths(inner.body)
     bad = 0
@@ -198,7 +213,12 @@ def rule_r2(ctx) -> List[R.Inst]:
             insts.append(R.undec(rid, "gap-to-next", file, d[0].lineno, f"gap expression not recognised: {unparse(v)}"))
     # (c) inv_length = diff - gap
     il = local_defs(inner, "inv_length")
-    if len(il) == 1 and sym.same_formula(il[0], f"diff - {gap}"):
+    if len(il) == 1 and isinstance(il[0], ast.Call) and call_name(il[0]) in ("max", "min", "abs", "clip", "round", "int"):
+        insts.append(R.viol(rid, "hold-length", file, il[0].lineno,
+                            f"the length compared with the threshold is '{unparse(il[0])}', not (gap to next) - {gap} itself: clamping or "
+                            f"rounding changes the hit/hold decision (with threshold 0 a note closer than '{gap}' to the next one "
+                            f"becomes a zero-length hold instead of a hit)", construct=unparse(il[0])))
+    elif len(il) == 1 and sym.same_formula(il[0], f"diff - {gap}"):
         insts.append(R.ok(rid, "hold-length", file, il[0].lineno, idiom=f"length = gap to next - {gap}: the hold ends exactly {gap} before the next note"))
     elif len(il) == 1 and sym.only_modelled(il[0], {"diff", gap, thres}):
         insts.append(R.viol(rid, "hold-length", file, il[0].lineno,
@@ -349,7 +369,7 @@ def rule_r4(ctx) -> List[R.Inst]:
 
 
 SPECS = [
-    RuleSpec("C17.R1", rule_r1, 5, "A8", "one output note per input note on every path, carrying offset and column; positional row unpack"),
+    RuleSpec("C17.R1", rule_r1, 6, "A8", "one output note per input note on every path, carrying offset and column; positional row unpack"),
     RuleSpec("C17.R2", rule_r2, 4, "A7", "sorted by time then grouped by column; gap = next - own; length = gap - 'gap'; decision table"),
     RuleSpec("C17.R3", rule_r3, 4, "A3", "works on a deep copy; reassigns only hits and holds, rebuilt by their own classes"),
     RuleSpec("C17.R4", rule_r4, 7, "A2", "lists selected by the note filter = lists rewritten, for every chart class"),
